@@ -447,6 +447,9 @@ func GenC12(seed uint64, tier string) *Config {
 	} else {
 		s = 2 + r.IntN(maxS-1)
 	}
+	if r.IntN(6) == 0 {
+		s = 2 + r.IntN(2) // tiny products: one or two sufficient zeros
+	}
 	// target so that len*target sits at, just below or just above 3^s (as far as divisibility allows)
 	base := new(big.Int).Quo(ref.Pow3(s), big.NewInt(int64(L)))
 	var t *big.Int
